@@ -91,7 +91,7 @@ func runC05(t *testing.T, e *worlds.Env, tier string) (bool, any) {
 						h.Late = lateRec
 					}
 					if h.Sub != nil {
-						h.Sub.Timeout = time.Duration(e.T.Pick("sub-timeout-ms", 3000, 50, 300, 1000, 2250)) * time.Millisecond
+						h.Sub.Timeout = time.Duration(e.T.Pick("sub-timeout-ms", 3000, 0, 50, 300, 1000, 2250) /* 0: the shipped default */) * time.Millisecond
 						if e.T.Prob(1, 10, "empty-sub") {
 							h.Sub.Routes = nil
 						}
